@@ -138,6 +138,14 @@ func currentFix(cfg string) string {
 	return cfg
 }
 
+// bothModes: export the configuration for ReqInline = TRUE and FALSE. The two models differ only
+// where an individually resolved @requires type's resolver returns nil; in the quick tier only the
+// configurations made for that are exported twice - behaviours of the others that do not contain
+// such an outcome are the same in both models and are replayed on every variant.
+func (m mcfg) bothModes(thorough bool) bool {
+	return m.hasReq() && (thorough || m.Name == "req" || m.Name == "rq1")
+}
+
 func (m mcfg) edit(inline bool) func(string) string {
 	return func(cfg string) string {
 		cfg = currentFix(cfg) // no-op for the all-repaired configuration; the others follow the findings' status
@@ -156,6 +164,11 @@ func (m mcfg) edit(inline bool) func(string) string {
 
 var allKinds = []string{"S", "Smiss", "Snull", "Ka", "Kbc", "Kboth", "Kanull", "Kb", "N", "Nbad", "Nmiss",
 	"Mid", "Malt", "Mmiss", "R", "Rm", "Rmnull", "U", "T0"}
+
+// kinds that give every leaf of a composite key a status (value / explicit null / absent)
+var compositeKinds = []string{"C", "C:vn", "C:nv", "C:nn", "C:va", "C:av", "C:na", "Cm", "Cm:vn", "Cm:nv", "Cm:nn", "Cm:va", "Cm:av", "Cm:na",
+	"N2", "N2:vn", "N2:nv", "N2:nn", "N2:va", "N2:av", "N2:na", "N2:bad", "Kbc", "Kbcn", "Kbnc", "Kbncn", "Kanbcn", "Kanull",
+	"K2", "K2:cn", "K2:cn-", "K2:bncn", "K2:ca"}
 
 // the fields the @requires field of each probe type needs, in SDL order
 var reqFields = map[string][]string{"R": {"w"}, "Rm": {"w"}, "R2": {"w", "n"}, "Rm2": {"w", "n"}, "R3": {"w", "n", "l"}, "Rm3": {"w", "n", "l"}}
@@ -192,6 +205,8 @@ func modelConfigs(thorough bool) []mcfg {
 			{"rq1", reqKinds("R", "Rm", "R2", "Rm2", "R3", "Rm3"), 1, 1, false},
 			{"rq2", append(reqKinds("R2"), "Rm2", "Rm2:1b", "Rm2:2n", "Rm2:2a"), 2, 1, false},
 			{"rq3", []string{"R3:1b", "Rm3", "Rm3:2b", "Rm3:3a"}, 3, 1, false},
+			{"ck1", compositeKinds, 1, 1, false},
+			{"ck2", []string{"C:vn", "Cm:vn", "Cm:nv", "Cm:nn", "Cm", "K2:cn", "N2:vn"}, 2, 1, false},
 		}
 	}
 	return []mcfg{
@@ -208,13 +223,16 @@ func modelConfigs(thorough bool) []mcfg {
 		{"rq2", reqKinds("R2", "Rm2"), 2, 1, false},
 		{"rq2b", append(reqKinds("R3"), "Rm3", "Rm3:1b", "Rm3:2b", "Rm3:2n", "Rm3:3b", "Rm", "Rm:1b"), 2, 1, false},
 		{"rq3", []string{"R3:1b", "Rm3", "Rm3:1b", "Rm3:2n", "Rm3:3b"}, 3, 1, false},
+		{"ck1", compositeKinds, 1, 1, false},
+		{"ck2", compositeKinds, 2, 1, false},
+		{"ck3", []string{"Cm", "Cm:vn", "Cm:nv", "Cm:nn", "Cm:va", "C:vn"}, 3, 1, false},
 	}
 }
 
 // bigConfigs are checked exhaustively without export (VIEW without the completion order).
 func bigConfigs(thorough bool) []mcfg {
 	if !thorough {
-		return []mcfg{{"cover", []string{"S", "Smiss", "Mid", "Malt", "Rm", "R", "U", "T0"}, 2, 1, true}}
+		return nil
 	}
 	return []mcfg{
 		{"mix44", []string{"S", "Mid", "Malt", "T0"}, 4, 2, false},
@@ -260,6 +278,18 @@ type emitted struct {
 	Cls    []string          `json:"cls"`
 	Inline bool              `json:"inline"`
 	Cfg    string            `json:"cfg"`
+	Both   bool              `json:"both"` // the configuration was exported for both ReqInline values
+}
+
+// inlineSensitive: does the behaviour depend on ReqInline (nil from an individually resolved
+// @requires type)?
+func (e *emitted) inlineSensitive() bool {
+	for i, o := range e.Out {
+		if o == "nil" && strings.HasPrefix(e.Reps[i], "R") && !strings.HasPrefix(e.Reps[i], "Rm") {
+			return true
+		}
+	}
+	return false
 }
 
 func (e *emitted) scenarioKey() string {
@@ -276,21 +306,137 @@ func (e *emitted) hasIndividualNil() bool {
 	return false
 }
 
-func isBatchKind(k string) bool { return strings.HasPrefix(k, "M") || strings.HasPrefix(k, "Rm") }
+func isBatchKind(k string) bool {
+	return strings.HasPrefix(k, "M") || strings.HasPrefix(k, "Rm") || strings.HasPrefix(k, "Cm")
+}
 
-var batchRes = map[string]bool{"findManyMByIDs": true, "findManyMByAlts": true, "findManyRmByIDs": true, "findManyRm2ByIDs": true, "findManyRm3ByIDs": true}
+var batchRes = map[string]bool{"findManyMByIDs": true, "findManyMByAlts": true, "findManyRmByIDs": true, "findManyRm2ByIDs": true, "findManyRm3ByIDs": true, "findManyCmByPAndQs": true}
 
 var resType = map[string]string{"findSByID": "S", "findKByA": "K", "findKByBAndC": "K", "findNByOid": "N",
 	"findManyMByIDs": "M", "findManyMByAlts": "M", "findRByID": "R", "findManyRmByIDs": "Rm",
-	"findR2ByID": "R2", "findManyRm2ByIDs": "Rm2", "findR3ByID": "R3", "findManyRm3ByIDs": "Rm3"}
+	"findR2ByID": "R2", "findManyRm2ByIDs": "Rm2", "findR3ByID": "R3", "findManyRm3ByIDs": "Rm3",
+	"findCByPAndQ": "C", "findManyCmByPAndQs": "Cm", "findN2ByOAAndOb": "N2", "findK2ByBAndC": "K2", "findK2ByA": "K2"}
+
+// the key leaves of the resolvers with a composite key, in argument order; the driver gives the
+// first leaf of representation j the value "i<j-1>" and the second "c<j-1>"
+var keyLeaves = map[string][]string{
+	"findKByBAndC": {"b", "c"}, "findK2ByBAndC": {"b", "c"}, "findCByPAndQ": {"p", "q"},
+	"findManyCmByPAndQs": {"p", "q"}, "findN2ByOAAndOb": {"o.a", "o.b"},
+}
+
+// kindLeaves: status ("v" | "null"; absent = not in the map) of every key leaf a kind carries.
+func kindLeaves(k string) map[string]string {
+	st := map[byte]string{'v': "v", 'n': "null"}
+	two := func(f1, f2 string, c string) map[string]string {
+		m := map[string]string{}
+		if s, ok := st[c[0]]; ok {
+			m[f1] = s
+		}
+		if s, ok := st[c[1]]; ok {
+			m[f2] = s
+		}
+		return m
+	}
+	base, mod := k, "vv"
+	if i := strings.Index(k, ":"); i > 0 {
+		base, mod = k[:i], k[i+1:]
+	}
+	switch base {
+	case "C", "Cm":
+		return two("p", "q", mod)
+	case "N2":
+		if mod == "bad" {
+			return map[string]string{}
+		}
+		return two("o.a", "o.b", mod)
+	case "K2":
+		switch mod {
+		case "vv":
+			return map[string]string{"a": "v", "b": "v", "c": "v"}
+		case "cn":
+			return map[string]string{"a": "v", "b": "v", "c": "null"}
+		case "cn-":
+			return map[string]string{"b": "v", "c": "null"}
+		case "bncn":
+			return map[string]string{"a": "v", "b": "null", "c": "null"}
+		case "ca":
+			return map[string]string{"a": "v", "b": "v"}
+		}
+	}
+	switch k {
+	case "Kbc":
+		return map[string]string{"b": "v", "c": "v"}
+	case "Kboth":
+		return map[string]string{"a": "v", "b": "v", "c": "v"}
+	case "Kanull":
+		return map[string]string{"a": "null", "b": "v", "c": "v"}
+	case "Kbcn":
+		return map[string]string{"b": "v", "c": "null"}
+	case "Kbnc":
+		return map[string]string{"b": "null", "c": "v"}
+	case "Kbncn":
+		return map[string]string{"b": "null", "c": "null"}
+	case "Kanbcn":
+		return map[string]string{"a": "null", "b": "v", "c": "null"}
+	case "Kb":
+		return map[string]string{"b": "v"}
+	}
+	return nil
+}
+
+// argsIndex maps the arguments of a resolver call key to the 1-based index they name (the first
+// leaf is "i<k>", the second "c<k>", a null leaf "null"): 0 = no value at all, -2 = values of
+// different representations / unparsable.
+func argsIndex(args []string) int {
+	idx := 0
+	for j, a := range args {
+		if a == "null" {
+			continue
+		}
+		k := parseIdx(a, []string{"i", "c"}[j%2])
+		if k <= 0 {
+			if j == 0 {
+				return k
+			}
+			return -2
+		}
+		if idx != 0 && k != idx {
+			return -2
+		}
+		idx = k
+	}
+	return idx
+}
+
+// nullPatternOK: are exactly those arguments of a composite-key call null whose leaf the kind
+// carries as an explicit null?
+func nullPatternOK(r string, args []string, kind string) bool {
+	ls := keyLeaves[r]
+	if ls == nil || len(args) != len(ls) {
+		return true
+	}
+	kl := kindLeaves(kind)
+	for j, a := range args {
+		if (a == "null") != (kl[ls[j]] != "v") {
+			return false
+		}
+	}
+	return true
+}
 
 // callKey renders the concrete gate / plan / event key of a resolver call for key index idx
 // (1-based; the driver gives representation j the key value "i<j-1>").
-func callKey(r string, idx int) string {
+func callKey(r string, idx int, kind string) string {
 	id := fmt.Sprintf("i%d", idx-1)
-	switch r {
-	case "findKByBAndC":
-		return ur.C20Key(r, []string{id, fmt.Sprintf("c%d", idx-1)})
+	if ls := keyLeaves[r]; ls != nil {
+		kl := kindLeaves(kind)
+		args := []string{id, fmt.Sprintf("c%d", idx-1)}
+		for j, l := range ls {
+			if kl[l] != "v" {
+				args[j] = "null"
+			}
+		}
+		return ur.C20Key(r, args)
 	}
 	return ur.C20Key(r, []string{id})
 }
@@ -329,6 +475,61 @@ func concretise(k string, i int, rnd *rand.Rand) map[string]any {
 		}
 		return m
 	}
+	if kl := kindLeaves(k); kl != nil {
+		tn := k
+		if j := strings.Index(k, ":"); j > 0 {
+			tn = k[:j]
+		}
+		if strings.HasPrefix(tn, "K") && tn != "K2" {
+			tn = "K"
+		}
+		m = map[string]any{"__typename": tn}
+		val := func(leaf, good string) (any, bool) {
+			switch kl[leaf] {
+			case "v":
+				return good, true
+			case "null":
+				return nil, true
+			}
+			return nil, false
+		}
+		switch tn {
+		case "N2":
+			if k == "N2:bad" {
+				m["o"] = []any{"x", 5.0}[rnd.Intn(2)]
+				break
+			}
+			o := map[string]any{}
+			if v, ok := val("o.a", id); ok {
+				o["a"] = v
+			}
+			if v, ok := val("o.b", c); ok {
+				o["b"] = v
+			}
+			m["o"] = o
+		case "C", "Cm":
+			if v, ok := val("p", id); ok {
+				m["p"] = v
+			}
+			if v, ok := val("q", c); ok {
+				m["q"] = v
+			}
+		default: // K, K2
+			if v, ok := val("a", id); ok {
+				m["a"] = v
+			}
+			if v, ok := val("b", id); ok {
+				m["b"] = v
+			}
+			if v, ok := val("c", c); ok {
+				m["c"] = v
+			}
+		}
+		if rnd.Intn(3) == 0 {
+			m["zq"] = "noise"
+		}
+		return m
+	}
 	switch k {
 	case "S":
 		m = map[string]any{"__typename": "S", "id": id}
@@ -338,14 +539,6 @@ func concretise(k string, i int, rnd *rand.Rand) map[string]any {
 		m = map[string]any{"__typename": "S", "id": nil}
 	case "Ka":
 		m = map[string]any{"__typename": "K", "a": id}
-	case "Kbc":
-		m = map[string]any{"__typename": "K", "b": id, "c": c}
-	case "Kboth":
-		m = map[string]any{"__typename": "K", "a": id, "b": id, "c": c}
-	case "Kanull":
-		m = map[string]any{"__typename": "K", "a": nil, "b": id, "c": c}
-	case "Kb":
-		m = map[string]any{"__typename": "K", "b": id}
 	case "N":
 		m = map[string]any{"__typename": "N", "o": map[string]any{"id": id}}
 	case "Nbad":
@@ -384,7 +577,7 @@ func concretise(k string, i int, rnd *rand.Rand) map[string]any {
 	return m
 }
 
-const entQuery = `query($reps:[_Any!]!){_entities(representations:$reps){__typename ... on S{v} ... on K{v} ... on N{v} ... on M{v} ... on R{v z} ... on Rm{v z} ... on R2{v z} ... on Rm2{v z} ... on R3{v z} ... on Rm3{v z}}}`
+const entQuery = `query($reps:[_Any!]!){_entities(representations:$reps){__typename ... on S{v} ... on K{v} ... on N{v} ... on M{v} ... on R{v z} ... on Rm{v z} ... on R2{v z} ... on Rm2{v z} ... on R3{v z} ... on Rm3{v z} ... on C{v} ... on Cm{v} ... on N2{v} ... on K2{v}}}`
 
 type job struct {
 	E       *emitted       `json:"emitted"`
@@ -420,7 +613,7 @@ func (e *emitted) scenario(id string, rnd *rand.Rand, dup []int) *vlib.Scenario 
 			continue
 		}
 		// individual: the call for representation i; batch: the element answering input i
-		plan[callKey(e.Ideal[i].Rs[0], i+1)] = ur.Outcome{K: k}
+		plan[callKey(e.Ideal[i].Rs[0], i+1, e.Reps[i])] = ur.Outcome{K: k}
 	}
 	for r, o := range e.Bout {
 		if o != "ok" {
@@ -437,7 +630,11 @@ func (e *emitted) scenario(id string, rnd *rand.Rand, dup []int) *vlib.Scenario 
 			if batchRes[c.R] {
 				keys = append(keys, c.R)
 			} else {
-				keys = append(keys, callKey(c.R, c.I))
+				kind := ""
+				if c.I >= 1 && c.I <= len(e.Reps) {
+					kind = e.Reps[c.I-1]
+				}
+				keys = append(keys, callKey(c.R, c.I, kind))
 			}
 		}
 		// all calls are in flight together - except that the batch calls of ONE type group run one
@@ -580,9 +777,15 @@ func abstractElem(v any, kinds []string, mapIdx func(int) int) elem {
 	}
 	r := vs[:op]
 	args := strings.Split(vs[op+1:len(vs)-1], ",")
-	e := elem{R: r, I: parseIdx(args[0], "i")}
-	if r == "findKByBAndC" && len(args) == 2 && e.I > 0 && parseIdx(args[1], "c") != e.I {
-		e.I = -2 // the two parts of a composite key come from different representations
+	e := elem{R: r, I: argsIndex(args)}
+	if e.I > 0 {
+		// the leaves handed over as null must be exactly the ones the representation carries as null
+		for ri, kn := range kinds {
+			if mapIdx(ri+1) == e.I && !nullPatternOK(r, args, kn) {
+				e.I = -2
+				break
+			}
+		}
 	}
 	if resType[r] != tn {
 		e.R = "typename-mismatch:" + tn + "/" + r
@@ -763,7 +966,7 @@ func linesOf(jobs map[string]*job) func(*vlib.Scenario) [][]byte {
 						ks := []int{}
 						for _, k := range strings.Fields(ev.A) {
 							op := strings.Index(k, "(")
-							ks = append(ks, parseIdx(strings.Split(k[op+1:len(k)-1], ",")[0], "i"))
+							ks = append(ks, argsIndex(strings.Split(k[op+1:len(k)-1], ",")))
 						}
 						add(map[string]any{"e": "BStart", "r": ev.P, "ks": ks})
 					} else {
@@ -775,7 +978,7 @@ func linesOf(jobs map[string]*job) func(*vlib.Scenario) [][]byte {
 				if op < 0 {
 					continue
 				}
-				idx := parseIdx(strings.Split(ev.P[op+1:len(ev.P)-1], ",")[0], "i")
+				idx := argsIndex(strings.Split(ev.P[op+1:len(ev.P)-1], ","))
 				if ev.E == "Start" {
 					add(map[string]any{"e": "Start", "r": ev.P[:op], "i": idx})
 				} else {
@@ -853,6 +1056,10 @@ func main() {
 	// states of MC_Entities.cfg) and the repaired design against the property itself; the bigger
 	// MC-only configurations follow. At most 4 TLC workers at any time.
 	mcs := modelConfigs(thorough)
+	allFixed := true
+	for _, v := range fixFlag {
+		allFixed = allFixed && v
+	}
 	type mcJob struct {
 		m      mcfg
 		cfg    string
@@ -862,10 +1069,13 @@ func main() {
 	var mjobs []*mcJob
 	for _, m := range mcs {
 		mjobs = append(mjobs, &mcJob{m: m, cfg: "MC_Entities_emit.cfg", inline: true})
-		if m.hasReq() {
+		if m.bothModes(thorough) {
 			mjobs = append(mjobs, &mcJob{m: m, cfg: "MC_Entities_emit.cfg", inline: false})
 		}
-		mjobs = append(mjobs, &mcJob{m: m, cfg: "MC_Entities_fixed.cfg", inline: true})
+		if !allFixed {
+			// (with every finding fixed the export run above IS the all-repaired model judged by Correct)
+			mjobs = append(mjobs, &mcJob{m: m, cfg: "MC_Entities_fixed.cfg", inline: true})
+		}
 	}
 	{
 		sem := make(chan struct{}, 4)
@@ -902,20 +1112,24 @@ func main() {
 				continue
 			}
 			e.Cfg = mj.m.Name
+			e.Both = mj.m.bothModes(thorough)
 			ems = append(ems, &e)
 			n++
 		}
 		if n == 0 {
 			vlib.Infra("TLC exported no behaviours for %s", mj.m.Name)
 		}
-		fmt.Fprintf(os.Stderr, "[c20] model %-6s inline=%-5v pinned tree: CorrectModuloKnown holds on %d states, %d (scenario, order) behaviours exported (%.0fs)\n",
+		fmt.Fprintf(os.Stderr, "[c20] model %-6s inline=%-5v current tree: CorrectModuloKnown holds on %d states, %d (scenario, order) behaviours exported (%.0fs)\n",
 			mj.m.Name, mj.inline, mj.res.Distinct, n, mj.res.WallS)
 	}
 	for _, m := range bigConfigs(thorough) {
 		p := runMC(c, m, "MC_Entities.cfg", true, 4, true)
 		c.AddStates(p.Distinct, p.Generated)
-		f := runMC(c, m, "MC_Entities_fixed.cfg", true, 4, true)
-		c.AddStates(f.Distinct, f.Generated)
+		f := p
+		if !allFixed {
+			f = runMC(c, m, "MC_Entities_fixed.cfg", true, 4, true)
+			c.AddStates(f.Distinct, f.Generated)
+		}
 		fmt.Fprintf(os.Stderr, "[c20] model %-6s (exhaustive only) pinned %d states, repaired %d states (%.0fs)\n", m.Name, p.Distinct, f.Distinct, p.WallS+f.WallS)
 		if m.Cover {
 			for _, r := range []*vlib.TLCResult{p, f} {
@@ -949,11 +1163,8 @@ func main() {
 		}
 		var jobs []*job
 		for k, e := range ems {
-			if e.hasReqKinds() && e.Inline != f.Inline {
-				continue
-			}
-			if !e.hasReqKinds() && !e.Inline {
-				continue
+			if e.Inline != f.Inline && (e.Both || e.inlineSensitive()) {
+				continue // the other export of this configuration / a behaviour of the other model
 			}
 			if f.NoNil && e.hasIndividualNil() {
 				continue
